@@ -65,10 +65,17 @@ def _span(n):
     return n.type, n.value, n.start, n.end
 
 
-def build(t):
+def build(t, link=True):
+    """link=False attaches the children after construction, so their parent pointers stay unset: the statement's
+    precondition is about child spans and order only, flattening must not depend on parent links"""
     from multidecoder.node import Node
 
-    return Node(t[0], t[1], "", t[2], t[3], children=[build(c) for c in t[4]])
+    if link:
+        return Node(t[0], t[1], "", t[2], t[3], children=[build(c) for c in t[4]])
+    n = Node(t[0], t[1], "", t[2], t[3])
+    for c in t[4]:
+        n.children.append(build(c, False))
+    return n
 
 
 ALPHA = list(b'abcd"')
@@ -128,6 +135,9 @@ def check_tree(case) -> Outcome:
     if got != exp:
         key = "flatten:differs"
         o.violate(key, {"tree": t, "got": got, "expected": exp})
+    got2 = build(t, link=False).flatten()
+    if got2 != exp:
+        o.violate("flatten:differs:children-without-parent-links", {"tree": t, "got": got2, "expected": exp})
     o.nontrivial = stats["substituted"] > 0
     for k, v in stats.items():
         if v:
